@@ -48,7 +48,7 @@ func (w *World) ExpectedFees(ops []*BuiltOp) map[string]*big.Int {
 	return out
 }
 
-const extraDenom = "zfoo"
+const extraDenom = "stake"
 
 func coinsFrom(m map[string]*big.Int) sdk.Coins {
 	var cs sdk.Coins
@@ -126,6 +126,16 @@ func (w *World) feeFor(t *Tx, ops []*BuiltOp) sdk.Coins {
 		m[extraDenom] = extra
 	case FeeLiteral:
 		m = map[string]*big.Int{primary: parseBig(t.Fee.Amt)}
+	case FeeFirstModuleOnly:
+		var first []*BuiltOp
+		mod := ""
+		for _, o := range ops {
+			if o.IsFeeOp && (mod == "" || o.Module == mod) {
+				mod = o.Module
+				first = append(first, o)
+			}
+		}
+		m = w.ExpectedFees(first)
 	}
 	return coinsFrom(m)
 }
